@@ -435,7 +435,7 @@ pub fn run(ctx: &Ctx) -> &'static str {
     );
     if ctx.tier == Tier::Thorough && !ctx.failed() {
         real_threads(ctx, 6);
-        crate::props::e2e::run(ctx, crate::props::e2e::Phase::Subscription, 1);
     }
+    crate::props::e2e::run(ctx, crate::props::e2e::Phase::Subscription, ctx.tier.pick(1, 2));
     "exploration"
 }
